@@ -114,7 +114,10 @@ def explore(ctx):
                 uu = sum(x * x for x in u)
                 want = sum(u[i] * m2[i][j] * u[j] for i in range(nd) for j in range(nd)) / uu
                 # ... also nearly, but not exactly, of unit length (a direction typed with five decimals)
-                for c in (1, rng.choice([2, 7, 0.5]), -1, -3, (1 + rng.choice([3e-6, -4e-6, 8e-6, -9e-6])) / float(uu) ** 0.5):
+                # ... and very short / very long (a step of a finite-difference scheme, a vector in other units): the
+                # length of the direction must not matter at all
+                for c in (1, rng.choice([2, 7, 0.5]), -1, -3, (1 + rng.choice([3e-6, -4e-6, 8e-6, -9e-6])) / float(uu) ** 0.5,
+                          2.0 ** -35, -1e-11, 3e-13, 2.0 ** 45):
                     got = st.mom2_along(tuple(c * x for x in u))
                     if not close(got, want):
                         fails.append('mom2_along(%s * %s) = %r, quadratic form for the normalised direction %s' % (c, u, got, float(want)))
